@@ -41,7 +41,7 @@ Proof.
   - unfold scan_op. destruct (c_failure c); cbn; auto.
     destruct (validate_expr_attrs _ _ _); cbn; auto.
     destruct (lookup table (c_tables c)); cbn; auto. apply fst_run_search.
-  - unfold batch_get. destruct flavour; cbn; auto. destruct (c_failure c); reflexivity.
+  - unfold batch_get. destruct flavour; cbn; auto. destruct (c_failure c); [reflexivity|]. destruct (negb _); reflexivity.
   - destruct (c_failure c); reflexivity.
 Qed.
 
